@@ -161,6 +161,12 @@ var c11Statements = []string{
 	"z = [1].nosuch()",
 	"a = [1]; a.push()",
 	"a = [1]; a.contains()",
+	"x = match ([[1], 2]) { [1, q] => 0, y => 1 }",
+	"x = match ([1]) { [1 + 2] => 0, y => 1 }",
+	"x = match (['a']) { ['\\q'] => 0, y => 1 }",
+	"x = match ([1, [2]]) { [1, 2] => 0, [1, z] => 1 }",
+	"x = match ({k: 1}) { 1 => 0, y => 1 }",
+	"x = match (1) { nosuchfn() => 0, y => 1 }",
 }
 
 // VHC11Statements: statements that fail as a whole (store on a scalar, also inside
